@@ -5,7 +5,7 @@ use ant_evm::{EvmNetwork, RewardsAddress};
 use ant_logging::LogFormat;
 use ant_node_manager::add_services::add_node;
 use ant_node_manager::add_services::config::{AddNodeServiceOptions, PortRange};
-use ant_node_manager::VerbosityLevel;
+use ant_node_manager::{ServiceManager, VerbosityLevel};
 use ant_service_management::control::ServiceControl;
 use ant_service_management::error::Error as SvcError;
 use ant_service_management::rpc::{NetworkInfo, NodeInfo, RecordAddress, RpcActions};
@@ -18,7 +18,7 @@ use std::collections::BTreeMap;
 use std::net::{IpAddr, Ipv4Addr, SocketAddr};
 use std::path::{Path, PathBuf};
 use std::str::FromStr;
-use std::sync::Mutex;
+use std::sync::{Arc, Mutex};
 use std::time::Duration;
 
 pub const PEER_ID: &str = "12D3KooWS2tpXGGTmg2AHFiDh57yPQnat49YHnyqoggzXZWpqkCR";
@@ -144,6 +144,59 @@ impl ServiceControl for Ctl {
     fn wait(&self, _d: u64) {}
 }
 
+/// One call of the service manager that matters to C20: what was removed / written, and at which level.
+#[derive(Clone)]
+pub enum Call {
+    Uninstall(String, bool),
+    Install(ServiceInstallCtx, bool),
+}
+/// `ServiceControl` handed to the real `ServiceManager::upgrade` and (through the cfg-guarded stand-in of
+/// `ant_node_manager::verif`) to the real `rpc::restart_node_service`: records uninstall / install with their level.
+/// `start_fails`: `start` is refused, so that the code under test returns before it talks to a node RPC.
+#[derive(Clone)]
+pub struct RecCtl {
+    pub calls: Arc<Mutex<Vec<Call>>>,
+    pub start_fails: bool,
+}
+impl RecCtl {
+    pub fn new(start_fails: bool) -> RecCtl {
+        RecCtl { calls: Arc::new(Mutex::new(vec![])), start_fails }
+    }
+    pub fn take(&self) -> Vec<Call> {
+        self.calls.lock().unwrap().drain(..).collect()
+    }
+}
+impl ServiceControl for RecCtl {
+    fn create_service_user(&self, _u: &str) -> Result<(), SvcError> {
+        Ok(())
+    }
+    fn get_available_port(&self) -> Result<u16, SvcError> {
+        Ok(1)
+    }
+    fn install(&self, ctx: ServiceInstallCtx, user_mode: bool) -> Result<(), SvcError> {
+        self.calls.lock().unwrap().push(Call::Install(ctx, user_mode));
+        Ok(())
+    }
+    fn get_process_pid(&self, _p: &Path) -> Result<u32, SvcError> {
+        Ok(1000)
+    }
+    fn start(&self, _n: &str, _u: bool) -> Result<(), SvcError> {
+        if self.start_fails {
+            Err(injected())
+        } else {
+            Ok(())
+        }
+    }
+    fn stop(&self, _n: &str, _u: bool) -> Result<(), SvcError> {
+        Ok(())
+    }
+    fn uninstall(&self, n: &str, user_mode: bool) -> Result<(), SvcError> {
+        self.calls.lock().unwrap().push(Call::Uninstall(n.to_string(), user_mode));
+        Ok(())
+    }
+    fn wait(&self, _d: u64) {}
+}
+
 pub struct Rpc {
     pub listen: Option<u16>,
 }
@@ -208,13 +261,140 @@ pub fn upgrade_autostart_rule() -> String {
     rest.split(',').next().unwrap_or("?").trim().to_string()
 }
 
+/// How `cmd::node::add` treats a `--bootstrap-cache-dir` given on antctl's command line: read from the working
+/// tree's source (the function itself needs root / a real service manager / a release download).
+pub fn cli_cache_rule() -> String {
+    let src = std::fs::read_to_string("/repo/ant-node-manager/src/cmd/node.rs").unwrap_or_default();
+    let c: String = src.chars().filter(|c| !c.is_whitespace()).collect();
+    let c = {
+        // drop `// …` comments (they were glued to the code by the white-space removal): work on the lines instead
+        let _ = c;
+        src.lines().map(|l| l.split("//").next().unwrap_or("")).collect::<String>().chars().filter(|c| !c.is_whitespace()).collect::<String>()
+    };
+    if c.contains("ifpeers_args.bootstrap_cache_dir.is_none(){peers_args.bootstrap_cache_dir=bootstrap_cache_dir;}") {
+        "keep-given".into()
+    } else if c.contains("peers_args.bootstrap_cache_dir=bootstrap_cache_dir;") {
+        "overwrite".into()
+    } else {
+        "?".into()
+    }
+}
+
+// ---------- the unit file of the shipped systemd backend, and systemd's reading of it ----------
+/// The text `service-manager`'s OWN systemd backend writes for this definition. `SystemdServiceManager::install`
+/// at user level writes `$XDG_CONFIG_HOME/systemd/user/<label>.service` and, with autostart off, never runs
+/// `systemctl`; `make_service` (private) renders `ExecStart=` / `Environment=` the same at both levels.
+pub fn render_systemd_unit(ctx: &ServiceInstallCtx, scratch: &Path) -> Result<String, String> {
+    use service_manager::ServiceManager as _;
+    let cfg = scratch.join("xdg-config");
+    std::fs::create_dir_all(&cfg).map_err(|e| e.to_string())?;
+    std::env::set_var("XDG_CONFIG_HOME", &cfg);
+    let mut c = ctx.clone();
+    c.autostart = false;
+    let script = c.label.to_script_name();
+    service_manager::SystemdServiceManager::user().install(c).map_err(|e| format!("systemd backend: {e}"))?;
+    let path = cfg.join("systemd/user").join(format!("{script}.service"));
+    let text = std::fs::read_to_string(&path).map_err(|e| format!("{}: {e}", path.display()))?;
+    let _ = std::fs::remove_file(&path);
+    Ok(text)
+}
+
+pub fn unit_exec_line(unit: &str) -> Option<&str> {
+    unit.lines().find(|l| l.starts_with("ExecStart="))
+}
+pub fn unit_env_lines(unit: &str) -> Vec<&str> {
+    unit.lines().filter(|l| l.starts_with("Environment=")).collect()
+}
+
+/// systemd's splitting of a command line (systemd.service(5) "Command lines"; `extract_first_word` with
+/// EXTRACT_UNQUOTE): unquoted white space separates, `"…"` / `'…'` group and are removed. `None` = the line contains
+/// a `\` escape, a `%` specifier, a `$` variable, an unbalanced quote or a lone `;`: not interpreted here.
+pub fn systemd_split(s: &str) -> Option<Vec<String>> {
+    let mut out: Vec<String> = vec![];
+    let mut cur: Option<String> = None;
+    let mut q: Option<char> = None;
+    for c in s.chars() {
+        match q {
+            None => {
+                if c == ' ' || c == '\t' || c == '\n' || c == '\r' {
+                    if let Some(w) = cur.take() {
+                        out.push(w);
+                    }
+                } else if c == '"' || c == '\'' {
+                    cur.get_or_insert_with(String::new);
+                    q = Some(c);
+                } else if c == '\\' || c == '%' || c == '$' {
+                    return None;
+                } else {
+                    cur.get_or_insert_with(String::new).push(c);
+                }
+            }
+            Some(qc) => {
+                if c == qc {
+                    q = None;
+                } else if c == '\\' || c == '%' || c == '$' {
+                    return None;
+                } else {
+                    cur.get_or_insert_with(String::new).push(c);
+                }
+            }
+        }
+    }
+    if q.is_some() {
+        return None;
+    }
+    if let Some(w) = cur {
+        out.push(w);
+    }
+    if out.iter().any(|w| w == ";") {
+        return None;
+    }
+    Some(out)
+}
+
+/// non-empty, no white space / quote / backslash / `%` / `$`, not `;` alone (Lean: `wordSafe`)
+pub fn word_safe(w: &str) -> bool {
+    !w.is_empty() && w != ";" && !w.chars().any(|c| c == ' ' || c == '\t' || c == '\n' || c == '\r' || c == '"' || c == '\'' || c == '\\' || c == '%' || c == '$')
+}
+pub fn unit_safe(ctx: &ServiceInstallCtx) -> bool {
+    word_safe(&ctx.program.to_string_lossy()) && argv(ctx).iter().all(|a| word_safe(a))
+}
+
+/// what the daemon's restart did
+pub struct Restarted {
+    pub kind: String,
+    pub result: String,
+    pub uninstall_level: Option<bool>,
+    pub install: Option<(ServiceInstallCtx, bool)>,
+    /// replacement only: the registry entry recorded for the new service and the definition its next upgrade writes
+    pub replacement: Option<(NodeServiceData, ServiceInstallCtx, (bool, bool))>,
+}
+
 pub struct Built {
     /// position of the service in the add (1-based)
     pub index: usize,
     pub install: ServiceInstallCtx,
     pub install_user_mode: bool,
     pub upgrade: ServiceInstallCtx,
+    /// levels `ServiceManager::upgrade` handed to uninstall / install
+    pub upgrade_levels: (bool, bool),
+    pub restart: Option<Restarted>,
     pub data: NodeServiceData,
+}
+
+/// the real `ServiceManager::upgrade` on one registry entry, against a recording service manager (the service is not
+/// started afterwards: `start_service = false`): the definition it wrote, and the two levels
+fn real_upgrade(data: &mut NodeServiceData, options: UpgradeOptions, rt: &tokio::runtime::Runtime) -> Result<(ServiceInstallCtx, (bool, bool)), String> {
+    let ctl = RecCtl::new(false);
+    let svc = NodeService::new(data, Box::new(Rpc { listen: None }));
+    let mut mgr = ServiceManager::new(svc, Box::new(ctl.clone()), VerbosityLevel::Minimal);
+    rt.block_on(mgr.upgrade(options)).map_err(|e| format!("ServiceManager::upgrade: {e}"))?;
+    drop(mgr);
+    let calls = ctl.take();
+    match calls.as_slice() {
+        [Call::Uninstall(_, ul), Call::Install(ctx, il)] => Ok((ctx.clone(), (*ul, *il))),
+        other => Err(format!("ServiceManager::upgrade made {} uninstall/install calls in an unexpected order", other.len())),
+    }
 }
 
 fn dummy_node(n: u16, root: &Path) -> NodeServiceData {
@@ -309,48 +489,67 @@ pub fn build_real(rec: &Rec, root: &Path, rt: &tokio::runtime::Runtime, autostar
     };
     // with auto_set_nat_flags the flags given on the command line are overwritten: hand in the opposite
     let (upnp_in, home_in) = if nat.is_some() { (!rec.flag("options.upnp"), !rec.flag("options.home_network")) } else { (rec.flag("options.upnp"), rec.flag("options.home_network")) };
-    let options = AddNodeServiceOptions {
-        antnode_dir_path: data_dir.parent().ok_or("data dir parent")?.to_path_buf(),
-        antnode_src_path: src_bin,
+    let log_format = match rec.some("options.log_format").as_deref() {
+        Some("json") => Some(LogFormat::Json),
+        Some("default") => Some(LogFormat::Default),
+        Some(_) => return Err("log_format".into()),
+        None => None,
+    };
+    let rewards_address = RewardsAddress::from_str(&rec.some("options.rewards_address").ok_or("rewards")?).map_err(|e| e.to_string())?;
+    // `cmd::node::add`: a `--bootstrap-cache-dir` given on antctl's command line (`@cli_cache`) against the service
+    // user's default (the record's `options.peers_args.bootstrap_cache_dir`), by the rule the source has
+    let mut peers_args = peers_args;
+    if let Some(given) = rec.some("@cli_cache") {
+        match cli_cache_rule().as_str() {
+            "keep-given" => peers_args.bootstrap_cache_dir = Some(PathBuf::from(sub(given))),
+            "overwrite" => {}
+            other => return Err(format!("unknown-add-shape bootstrap_cache_dir: {other}")),
+        }
+    }
+    let data_parent = data_dir.parent().ok_or("data dir parent")?.to_path_buf();
+    let log_parent = {
+        // the user-mode default: `<data dir>/node/<service>/logs`
+        let p = log_dir.parent().ok_or("log dir parent")?;
+        if log_dir.file_name().map(|f| f == "logs").unwrap_or(false) && rec.flag("options.user_mode") { p.parent().ok_or("log dir parent")?.to_path_buf() } else { p.to_path_buf() }
+    };
+    let make_options = |later: Option<Vec<(String, String)>>| AddNodeServiceOptions {
+        antnode_dir_path: data_parent.clone(),
+        antnode_src_path: src_bin.clone(),
         auto_restart: rec.flag("options.auto_restart"),
         auto_set_nat_flags: nat.is_some(),
-        count: Some(count),
+        count: Some(if later.is_some() { 1 } else { count }),
         delete_antnode_src: false,
         enable_metrics_server: via_server,
-        env_variables: rec.some("options.env_variables").map(|s| env_pairs(&s)),
-        evm_network: evm,
+        env_variables: if later.is_some() { later.clone() } else { rec.some("options.env_variables").map(|s| env_pairs(&s)) },
+        evm_network: evm.clone(),
         home_network: home_in,
-        log_format: match rec.some("options.log_format").as_deref() {
-            Some("json") => Some(LogFormat::Json),
-            Some("default") => Some(LogFormat::Default),
-            Some(_) => return Err("log_format".into()),
-            None => None,
-        },
+        log_format,
         max_archived_log_files: rec.some("options.max_archived_log_files").and_then(|s| s.parse().ok()),
         max_log_files: rec.some("options.max_log_files").and_then(|s| s.parse().ok()),
-        metrics_port: if via_server { None } else { metrics.map(range) },
+        metrics_port: if via_server || later.is_some() { None } else { metrics.map(range) },
         network_id: rec.some("options.network_id").and_then(|s| s.parse().ok()),
         node_ip: rec.some("options.node_ip").and_then(|s| s.parse().ok()),
-        node_port: port("node_port").map(range),
+        node_port: if later.is_some() { None } else { port("node_port").map(range) },
         owner: rec.some("options.owner"),
-        peers_args,
-        rewards_address: RewardsAddress::from_str(&rec.some("options.rewards_address").ok_or("rewards")?).map_err(|e| e.to_string())?,
+        peers_args: PeersArgs { first: peers_args.first && later.is_none(), ..peers_args.clone() },
+        rewards_address,
         rpc_address: if rec.flag("@rpc_default_ip") { None } else { Some(rpc_ip) },
-        rpc_port: if rpc_auto { None } else { Some(range(rpc.port())) },
-        service_data_dir_path: data_dir.parent().ok_or("data dir parent")?.to_path_buf(),
-        service_log_dir_path: log_dir.parent().ok_or("log dir parent")?.to_path_buf(),
+        rpc_port: if rpc_auto || later.is_some() { None } else { Some(range(rpc.port())) },
+        service_data_dir_path: data_parent.clone(),
+        service_log_dir_path: log_parent.clone(),
         upnp: upnp_in,
         user: rec.some("options.user"),
         user_mode: rec.flag("options.user_mode"),
         version: rec.some("options.version").unwrap_or_else(|| "0.1.0".into()),
     };
+    let options = make_options(None);
     let reg_path = root.join("node_registry.json");
     let mut reg = NodeRegistry {
         auditor: None,
         daemon: None,
         environment_variables: rec.some("@prev").map(|s| env_pairs(&s)),
         faucet: None,
-        nat_status: nat,
+        nat_status: nat.clone(),
         nodes: (1..number).map(|n| dummy_node(n, root)).collect(),
         save_path: reg_path.clone(),
     };
@@ -375,6 +574,20 @@ pub fn build_real(rec: &Rec, root: &Path, rt: &tokio::runtime::Runtime, autostar
         // `cmd::node::add` saves the registry once more after a successful add_node
         reg.save().map_err(|e| format!("registry save: {e}"))?;
     }
+    // a LATER `antctl add --env ..` of one more service (other settings as this add, ports looked up)
+    if let Some(later) = rec.some("@later") {
+        let ctl2 = Ctl {
+            installed: Mutex::new(vec![]),
+            free_port: 30000,
+            free_port_counts_up: true,
+            install_calls: Mutex::new(0),
+            port_calls: Mutex::new(0),
+            fail_install_at: None,
+            fail_port_at: None,
+        };
+        rt.block_on(add_node(make_options(Some(env_pairs(&later))), &mut reg, &ctl2, VerbosityLevel::Minimal)).map_err(|e| format!("later add_node: {e}"))?;
+        reg.save().map_err(|e| format!("registry save: {e}"))?;
+    }
     drop(reg);
     // `antctl upgrade` starts from the registry file
     let mut reg = NodeRegistry::load(&reg_path).map_err(|e| format!("registry load: {e}"))?;
@@ -396,27 +609,69 @@ pub fn build_real(rec: &Rec, root: &Path, rt: &tokio::runtime::Runtime, autostar
             let mut svc = NodeService::new(&mut data, Box::new(Rpc { listen: Some(p) }));
             rt.block_on(svc.on_start(Some(1000), true)).map_err(|e| format!("on_start: {e}"))?;
         }
+        let upgrade_options = |data: &NodeServiceData, env_variables: Option<Vec<(String, String)>>| -> Result<UpgradeOptions, String> {
+            let auto_restart = match autostart_rule {
+                "node.auto_restart" => data.auto_restart,
+                "false" => false,
+                "true" => true,
+                other => return Err(format!("unknown-upgrade-literal auto_restart: {other}")),
+            };
+            Ok(UpgradeOptions {
+                auto_restart,
+                env_variables,
+                force: false,
+                start_service: false,
+                target_bin_path: root.join("src/antnode"),
+                target_version: semver::Version::parse("0.2.0").unwrap(),
+            })
+        };
+        // the daemon's restart of this service (on a copy of the registry: the upgrade below starts from the same state)
+        let restart = match rec.some("@drestart") {
+            None => None,
+            Some(kind) => {
+                let mut reg2 = reg.clone();
+                reg2.nodes[pos] = data.clone();
+                let peer = data.peer_id.ok_or("@drestart needs @listen: the daemon addresses a service by the peer id it reported")?;
+                let rctl = RecCtl::new(true);
+                ant_node_manager::verif::set_service_control(Arc::new(rctl.clone()));
+                let r = rt.block_on(ant_node_manager::rpc::restart_node_service(&mut reg2, peer, kind == "retain"));
+                ant_node_manager::verif::clear_service_control();
+                let calls = rctl.take();
+                let mut uninstall_level = None;
+                let mut inst = None;
+                for c in calls {
+                    match c {
+                        Call::Uninstall(_, l) => uninstall_level = Some(l),
+                        Call::Install(ctx, l) => inst = Some((ctx, l)),
+                    }
+                }
+                let result = match (&inst, &r) {
+                    (Some(_), _) => "installed".to_string(),
+                    (None, Err(e)) if e.to_string().contains("The user must be set") => "err:no-user".to_string(),
+                    (None, Err(e)) => format!("err:other:{}", e.to_string().replace(' ', "_")),
+                    (None, Ok(())) => "err:nothing-installed".to_string(),
+                };
+                let replacement = if kind != "retain" && inst.is_some() {
+                    let mut nd = reg2.nodes.last().cloned().ok_or("replacement not recorded")?;
+                    if nd.service_name == label {
+                        return Err("the replacement service was not recorded in the registry".into());
+                    }
+                    let o = upgrade_options(&nd, reg2.environment_variables.clone())?;
+                    let (uctx, levels) = real_upgrade(&mut nd, o, rt)?;
+                    Some((nd, uctx, levels))
+                } else {
+                    None
+                };
+                Some(Restarted { kind, result, uninstall_level, install: inst, replacement })
+            }
+        };
         let provided = rec.some("@provided").map(|s| env_pairs(&s));
         let env_variables = if provided.is_some() { provided } else { reg.environment_variables.clone() };
-        let auto_restart = match autostart_rule {
-            "node.auto_restart" => data.auto_restart,
-            "false" => false,
-            "true" => true,
-            other => return Err(format!("unknown-upgrade-literal auto_restart: {other}")),
-        };
-        let options = UpgradeOptions {
-            auto_restart,
-            env_variables,
-            force: false,
-            start_service: true,
-            target_bin_path: root.join("src/antnode"),
-            target_version: semver::Version::parse("0.2.0").unwrap(),
-        };
-        let svc = NodeService::new(&mut data, Box::new(Rpc { listen: None }));
-        let upgrade = svc.build_upgrade_install_context(options).map_err(|e| format!("upgrade ctx: {e}"))?;
-        drop(svc);
+        let options = upgrade_options(&data, env_variables)?;
+        // the real `ServiceManager::upgrade`: uninstall, `build_upgrade_install_context`, install
+        let (upgrade, upgrade_levels) = real_upgrade(&mut data, options, rt)?;
         reg.nodes[pos] = data.clone();
-        out.push(Built { index, install, install_user_mode, upgrade, data });
+        out.push(Built { index, install, install_user_mode, upgrade, upgrade_levels, restart, data });
     }
     Ok(out)
 }
@@ -437,6 +692,27 @@ pub fn show_ctx(ctx: &ServiceInstallCtx, root: &Path) -> String {
         e(&ctx.program.to_string_lossy()),
         ctx.username.clone().map(|u| e(&u)).unwrap_or_else(|| "-".into())
     )
+}
+
+pub fn level(user: bool) -> &'static str {
+    if user { "user" } else { "system" }
+}
+
+/// `X: <ExecStart line> E: <Environment line>,..` of the unit file the shipped systemd backend writes
+pub fn show_unit(ctx: &ServiceInstallCtx, root: &Path, scratch: &Path) -> String {
+    let r = root.to_string_lossy().to_string();
+    let e = |x: &str| esc(&x.replace(&r, "$R"));
+    match render_systemd_unit(ctx, scratch) {
+        Err(er) => format!("X: error {}", e(&er)),
+        Ok(unit) => {
+            let envs = unit_env_lines(&unit);
+            format!(
+                "X: {} E: {}",
+                unit_exec_line(&unit).map(|l| e(l)).unwrap_or_else(|| "-".into()),
+                if envs.is_empty() { "-".to_string() } else { envs.iter().map(|l| e(l)).collect::<Vec<_>>().join(",") }
+            )
+        }
+    }
 }
 
 // ---------- generation ----------
@@ -496,7 +772,9 @@ const OWNERS: &[&str] = &[
     "x",
 ];
 const DIR_PARENTS: &[&str] = &["$R/data", "$R/dätä dir", "$R/ДАННЫЕ=x/Nodes", "$R/d"];
-const LOG_PARENTS: &[&str] = &["$R/log", "$R/Lög Files", "$R/l=o=g"];
+/// the user-mode default log directory (`get_user_antnode_data_dir()` with HOME = `$R/home`): `add_node` appends `<service>/logs`
+pub const USER_DEFAULT_LOG_PARENT: &str = "$R/home/.local/share/autonomi/node";
+const LOG_PARENTS: &[&str] = &["$R/log", "$R/Lög Files", "$R/l=o=g", USER_DEFAULT_LOG_PARENT];
 const ENVS: &[&str] = &["ANT_LOG=all", "ANT_LOG=all,RUST_LOG=libp2p=debug", "X=1", "ÄNV=Wert mit Leerzeichen,B=x=y", "PATH_EXTRA=/opt/Ünïcode dir/bin"];
 
 pub fn gen_value(key: &str, rng: &mut Rng, multi: bool) -> String {
@@ -509,7 +787,7 @@ pub fn gen_value(key: &str, rng: &mut Rng, multi: bool) -> String {
     };
     match key {
         "options.env_variables" => rng.pick(ENVS).to_string(),
-        "options.user" => "root".to_string(),
+        "options.user" => rng.pick(&["root", "root", "daemon", "nobody"]).to_string(),
         "options.log_format" => rng.pick(&["json", "default"]).to_string(),
         "options.network_id" => rng.pick(&["0", "1", "7", "255"]).to_string(),
         "options.node_ip" => rng.pick(&["10.0.0.7", "0.0.0.0", "255.255.255.255", "192.168.1.20"]).to_string(),
@@ -559,13 +837,14 @@ pub fn case_table(owner: &str) -> Option<String> {
 }
 
 /// the derived locals of the i-th service of an add whose first service has number `number`
-fn service_keys(r: &mut Rec, i: u64, number: u64, dparent: &str, lparent: &str, rpc_ip: &str, rpc_port: u64) {
+fn service_keys(r: &mut Rec, i: u64, number: u64, dparent: &str, lparent: &str, rpc_ip: &str, rpc_port: u64, user_mode: bool) {
     let n = number + i - 1;
+    let logs = if user_mode && lparent == USER_DEFAULT_LOG_PARENT { "/logs" } else { "" };
     let sfx = if i == 1 { String::new() } else { format!("#{i}") };
     r.set_some(&format!("node_number{sfx}"), &n.to_string());
     r.set_some(&format!("service_name{sfx}"), &format!("antnode{n}"));
     r.set_some(&format!("service_data_dir_path{sfx}"), &format!("{dparent}/antnode{n}"));
-    r.set_some(&format!("service_log_dir_path{sfx}"), &format!("{lparent}/antnode{n}"));
+    r.set_some(&format!("service_log_dir_path{sfx}"), &format!("{lparent}/antnode{n}{logs}"));
     r.set_some(&format!("service_antnode_path{sfx}"), &format!("{dparent}/antnode{n}/antnode"));
     r.set_some(&format!("rpc_socket_addr{sfx}"), &format!("{rpc_ip}:{}", rpc_port + i - 1));
 }
@@ -580,8 +859,9 @@ pub fn gen_record_with(bits: u64, evm: u64, rng: &mut Rng, multi: Option<(u64, O
     let lparent = if rng.chance(1, 2) { LOG_PARENTS[0] } else { *rng.pick(LOG_PARENTS) };
     let rpc_default = rng.chance(1, 2);
     let rpc_ip = if rpc_default { "127.0.0.1" } else { *rng.pick(&["127.0.0.1", "10.0.0.9", "0.0.0.0"]) };
-    let rpc_port = rng.range(12000, 12100);
-    service_keys(&mut r, 1, number, dparent, lparent, rpc_ip, rpc_port);
+    let rpc_port = rng.range(12100, 12200); // clear of the generated node / metrics ports (12000..12004)
+    let user_mode = bits >> 7 & 1 == 1; // BOOLS[7] = options.user_mode
+    service_keys(&mut r, 1, number, dparent, lparent, rpc_ip, rpc_port, user_mode);
     r.set("@rpc_default_ip", if rpc_default { "T" } else { "F" });
     r.set("options.rewards_address", format!("s:{}", RewardsAddress::from_str(*rng.pick(REWARDS)).unwrap()));
     r.set("options.version", "s:0.1.0");
@@ -619,6 +899,13 @@ pub fn gen_record_with(bits: u64, evm: u64, rng: &mut Rng, multi: Option<(u64, O
             r.set("options.evm_network.data_payments_address", format!("s:{}", norm(*rng.pick(&["0x8464135c8F25Da09e49BC8782676a84730C318bC", "0x7f90A89A5B15D0A3bE7F3F3F7F4B2c1E7b6eF1a2"]))));
         }
     }
+    // one port cannot be requested for two purposes (`add_node` refuses that): keep the metrics range clear of the node range
+    if let (Some(np), Some(mp)) = (r.some("node_port").and_then(|p| p.parse::<i64>().ok()), r.some("metrics_free_port").and_then(|p| p.parse::<i64>().ok())) {
+        if (np - mp).abs() < count as i64 {
+            let moved = if np > 60000 { np - 100 } else { np + 100 };
+            r.set_some("metrics_free_port", &moved.to_string());
+        }
+    }
     if let Some(o) = r.some("options.owner") {
         if let Some(t) = case_table(&o) {
             r.set("@case", t);
@@ -648,6 +935,33 @@ pub fn gen_record_with(bits: u64, evm: u64, rng: &mut Rng, multi: Option<(u64, O
         };
         r.set("@listen", format!("s:{p}"));
     }
+    // `--bootstrap-cache-dir` given on antctl's own command line (the record's value is the service user's default)
+    if rng.chance(1, 6) {
+        r.set_some("@cli_cache", *rng.pick(&["$R/my-cache", "$R/Çache dir/x=y", "$R/srv/bootstrap"]));
+    }
+    if count == 1 && rng.chance(1, 5) {
+        // the daemon restarts the started service: peer id retained, or (a service user is needed) a replacement
+        if r.get("@listen").is_none() {
+            let p = r.some("node_port").unwrap_or_else(|| rng.range(1025, 65535).to_string());
+            r.set("@listen", format!("s:{p}"));
+        }
+        let replace = r.some("options.user").is_some() && rng.chance(1, 2);
+        r.set("@drestart", if replace { "s:replace" } else { "s:retain" });
+        if replace {
+            let nn = number + 1;
+            let parent = |p: String| p.rsplit_once('/').map(|x| x.0.to_string()).unwrap_or_default();
+            let d = parent(r.some("service_data_dir_path").unwrap_or_default());
+            let l = parent(r.some("service_log_dir_path").unwrap_or_default());
+            r.set_some("~.new.new_node_number", &nn.to_string());
+            r.set_some("~.new.new_service_name", &format!("antnode{nn}"));
+            r.set_some("~.new.data_dir_path", &format!("{d}/antnode{nn}"));
+            r.set_some("~.new.log_dir_path", &format!("{l}/antnode{nn}"));
+            r.set_some("~.new.antnode_path", &format!("{d}/antnode{nn}/antnode"));
+        }
+    } else if rng.chance(1, 8) {
+        // a later `antctl add --env ..` of one more service
+        r.set_some("@later", *rng.pick(&["B=2", "ANT_LOG=later,RUST_LOG=debug"]));
+    }
     if let Some((count, fault)) = multi {
         r.set("options.peers_args.first", "F"); // a genesis node can only be added alone
         r.set("@count", format!("s:{count}"));
@@ -657,7 +971,7 @@ pub fn gen_record_with(bits: u64, evm: u64, rng: &mut Rng, multi: Option<(u64, O
         let np: Option<u64> = r.some("node_port").and_then(|p| p.parse().ok());
         let mp: Option<u64> = r.some("metrics_free_port").and_then(|p| p.parse().ok());
         for i in 2..=count {
-            service_keys(&mut r, i, number, dparent, lparent, rpc_ip, rpc_port);
+            service_keys(&mut r, i, number, dparent, lparent, rpc_ip, rpc_port, user_mode);
             if let Some(p) = np {
                 r.set(&format!("node_port#{i}"), format!("s:{}", p + i - 1));
             }
